@@ -11,6 +11,9 @@ type Admission struct {
 	Key   string
 	Why   string
 	Band  string // ambiguity band, "" when the statement decides
+	// NoUsable: no secret configuration that matches the address can be built (no users,
+	// unregistered types): whichever way the band is read, no user exists for the connection
+	NoUsable bool
 }
 
 // fam normalises an IP: IPv4 and IPv4-mapped IPv6 addresses are IPv4 addresses.
@@ -116,7 +119,20 @@ func (d Doc) Admit(ip net.IP, isTCP bool, mapped bool) Admission {
 		if len(d.ScopeUsers(s.Name)) == 0 || s.Type != 1 || !handlerOK {
 			// a scope without loadable users / unknown types is skipped by the builder:
 			// refuse or next match are both acceptable
-			return Admission{Admit: false, Why: "first matching scope cannot be built", Band: "userless-scope"}
+			usable := false
+			for _, t := range d.Secrets {
+				tm := false
+				for _, p := range t.Prefixes {
+					if in, _, _ := contains(p, ip, mapped); in {
+						tm = true
+					}
+				}
+				tOK := t.Handler.Type == 1 || (t.Handler.Type == 2 && d.XSpan && t.Handler.Options["destination"] != "")
+				if tm && len(d.ScopeUsers(t.Name)) > 0 && t.Type == 1 && tOK {
+					usable = true
+				}
+			}
+			return Admission{Admit: false, Why: "first matching scope cannot be built", Band: "userless-scope", NoUsable: !usable}
 		}
 		return Admission{Admit: true, Scope: s.Name, Key: s.Secret.Key, Band: band}
 	}
